@@ -218,7 +218,7 @@ func RunStoreCase(c *StoreCase, res *vprop.Result) {
 		}
 		exp[pi] = expect{class: sp.Class, stale: stale, durable: snap.status(ptag)}
 	}
-	reg := NewRegistry()
+	reg := NewRegistry(sc)
 	v, created, err := RebuildVault(reg, kept)
 	if err != nil || len(created) != len(sc.Plans) {
 		res.Skip = true
